@@ -83,7 +83,8 @@ def build_world_schema(deferred=None):
             t = root.get("__t") if isinstance(root, dict) else "Query"
             if name == "a":
                 if w["errA"] and t != "Query":
-                    raise ResolverError("a failed")
+                    # every failing `a` of one request raises the SAME exception object (each position still needs its own error)
+                    raise ctx.setdefault("_err_a", ResolverError("a failed"))
                 return 7
             if name == "s":
                 return None if w["nullS"] else "str"
